@@ -19,7 +19,7 @@ EXPLANATION = ("Deductive: _mix_by_weight_pairs (1-3 components) and _mix_by_vol
 
 def units(tier):
     return (((M.U_MIX_WEIGHT + M.U_MIX_VOLUME + M.U_BY_WEIGHT + M.U_BY_VOLUME + M.U_MIX_WRAPPERS +
-            [F.L_SUM_HOMOGENEOUS, F.L_SUM_ADDITIVE, F.L_SUM_SUPPORT, F.L_CONCAT, F.U_RMUL, F.U_IADD, G.L_TOKENS]) + [W.U_PKG[1], W.U_PKG[2]]) + [K.L_ATOM_IDENTITY]) + M.U_BY_ABSMASS + M.U_BY_LAYER + F.U_FORMULA_STRING
+            [F.L_SUM_HOMOGENEOUS, F.L_SUM_ADDITIVE, F.L_SUM_SUPPORT, F.L_CONCAT, F.U_RMUL, F.U_IADD, G.L_TOKENS]) + [W.U_PKG[1], W.U_PKG[2]]) + [K.L_ATOM_IDENTITY]) + M.U_BY_ABSMASS + M.U_BY_LAYER + F.U_FORMULA_STRING + G.U_PARSE_FORMULA
 
 
 def runner_tasks(tier):
